@@ -310,7 +310,7 @@ func (o *oracle) oracleBuild() {
 				l = 200 + o.rng.Intn(3000)
 			}
 			v := o.randBytes(l)
-			at := []uint16{0x0006, 0x0014, 0x7777, 0x8022, 0x0001}[o.rng.Intn(5)]
+			at := []uint16{0x0006, 0x0014, 0x7777, 0x8022, 0x0001, 0x8028, 0x0008, 0x0020}[o.rng.Intn(8)] // incl. FINGERPRINT / MESSAGE-INTEGRITY typed attributes in the middle of a message
 			vv := append([]byte(nil), v...)
 			o.guard("Add", func() { m.Add(AttrType(at), vv) })
 			for i := range vv { // Add copies
